@@ -809,12 +809,25 @@ theorem validateParentAttrs_reports_type (named : Bool) (pas : List ParentAttr) 
     (i : Member × Option TS) (hi : i ∈ f.subPath) (hnone : i.2.isNone = true) :
     nestedTypeMsg i ∈ validateParentAttrs named pas byKind es := by
   unfold validateParentAttrs
+  simp only
   refine mem_foldl_of_step _ _ _ _ pa hpa (fun pa' es hm => ?_) (fun es => ?_)
   · -- any other #[parent] instruction keeps what was reported
-    have := ext_validateParentAttrs named [pa'] byKind es _ hm
-    simpa [validateParentAttrs] using this
-  · simp only
-    have hmem : (a, k) ∈ byKind.filter (fun (x : TraitAttrCore × Kind) => x.2.isFrom && (pa.containerTy.isNone || isSomeEq pa.containerTy x.1.ty)) := by
+    refine mem_foldl_of_mem _ _ _ _ (fun x es hm => ?_) ?_
+    · split
+      · refine mem_foldl_of_mem _ _ _ _ (fun f es hm => ?_) hm
+        refine mem_foldl_of_mem _ _ _ _ (fun i es hm => ?_) hm
+        split
+        · exact mem_insert_of_mem _ _ _ hm
+        · exact hm
+      · exact hm
+    · refine mem_foldl_of_mem _ _ _ _ (fun x es hm => ?_) hm
+      split
+      · refine mem_foldl_of_mem _ _ _ _ (fun f es hm => ?_) hm
+        split
+        · exact mem_insert_of_mem _ _ _ hm
+        · exact hm
+      · exact hm
+  · have hmem : (a, k) ∈ byKind.filter (fun (x : TraitAttrCore × Kind) => x.2.isFrom && (pa.containerTy.isNone || isSomeEq pa.containerTy x.1.ty)) := by
       simp only [List.mem_filter, Bool.and_eq_true, Bool.or_eq_true]
       exact ⟨hx, hk, happ⟩
     refine mem_foldl_of_step _ _ _ _ (a, k) hmem (fun y es hm => ?_) (fun es => ?_)
